@@ -102,6 +102,10 @@ func main() {
 			rules.DumpExternal(p)
 			return
 		}
+		if *dump == "funcs" {
+			rules.DumpFuncs(p)
+			return
+		}
 		if strings.HasPrefix(*dump, "calls=") {
 			rules.DumpCalls(p, strings.TrimPrefix(*dump, "calls="))
 			return
